@@ -19,10 +19,12 @@ import types
 
 from hypothesis import strategies as st
 
-POS = ['a', 'b', 'c']
-DFLT = ['d', 'e', 'f']
-KWONLY = ['k', 'l']
-KWDFLT = ['m', 'n']
+# pool order = signature order; deliberately not alphabetical so that "signature order" differs
+# from sorted order
+POS = ['w', 'b', 'r']
+DFLT = ['v', 'e', 'q']
+KWONLY = ['u', 'k']
+KWDFLT = ['t', 'm']
 EXTRA = ['x', 'y']          # names only **kw can take
 
 _counter = [0]
@@ -210,10 +212,12 @@ def build(shape, gin, lists_on='target'):
 @st.composite
 def shapes(draw, kinds=('function', 'function', 'class_init', 'class_new', 'method'),
            apis=('configurable', 'register', 'external')):
-  pos = draw(st.lists(st.sampled_from(POS), max_size=3, unique=True).map(sorted))
-  dflt = draw(st.lists(st.sampled_from(DFLT), max_size=3, unique=True).map(sorted))
-  kwonly = draw(st.lists(st.sampled_from(KWONLY), max_size=2, unique=True).map(sorted))
-  kwdflt = draw(st.lists(st.sampled_from(KWDFLT), max_size=2, unique=True).map(sorted))
+  def ordered(pool):
+    return lambda xs: [p for p in pool if p in xs]
+  pos = draw(st.lists(st.sampled_from(POS), max_size=3, unique=True).map(ordered(POS)))
+  dflt = draw(st.lists(st.sampled_from(DFLT), max_size=3, unique=True).map(ordered(DFLT)))
+  kwonly = draw(st.lists(st.sampled_from(KWONLY), max_size=2, unique=True).map(ordered(KWONLY)))
+  kwdflt = draw(st.lists(st.sampled_from(KWDFLT), max_size=2, unique=True).map(ordered(KWDFLT)))
   return {'pos': pos, 'dflt': dflt, 'varargs': draw(st.booleans()), 'kwonly': kwonly,
           'kwdflt': kwdflt, 'varkw': draw(st.booleans()),
           'kind': draw(st.sampled_from(kinds)), 'api': draw(st.sampled_from(apis)),
